@@ -343,9 +343,14 @@ def weighted_geometric_mean(seq: Sequence[float], weights: Sequence[float]) -> f
     assert len(seq) == len(weights)
     assert all(w >= 0 for w in weights)
 
+    total_weight = sum([w for w in weights if w > 0])
+    if total_weight == 0:
+        # No element has any weight (e.g., an all-zero cost weight vector).
+        return 0
+
     return (
         math.prod([(n + 1) ** w for n, w in zip(seq, weights) if w > 0])
-        ** (1 / sum([w for w in weights if w > 0]))
+        ** (1 / total_weight)
     ) - 1
 
 
